@@ -27,8 +27,14 @@ lookup while the first is still open: 0 none / 1 optimistic writer / 2 non-optim
 writer).  The flags are decided one by one under CrossHair's tracer (explicit branching) and the whole real pipeline
 then runs under `NoTracing` with the chosen values: every explored path is ONE concrete run of the real code with an
 option combination chosen by the solver, and "Confirmed over all paths" means every combination in the bound was
-run and satisfied the reference (fault-enumeration level).  Reason: the traced query translator does not finish one
-path in 150 s (measured), a path under NoTracing costs ~10-30 ms.
+run and satisfied the reference (fault-enumeration level; counted: 1440 distinct combinations per SQLite harness, 720
+per PostgreSQL harness in the quick tier, each explored exactly once).  Reason: the traced query translator does not
+finish one path in 150 s (measured), a path under NoTracing costs ~15 ms idle / ~65 ms on the loaded machine.
+Every path starts from cold translator / SQL-text caches (`_cold`): pony keeps per-location state across sessions - a
+cached translator remembers having built a FOR UPDATE statement and stops caching query results - so with warm caches
+the outcome of a path depended on the order in which CrossHair explored the paths (seen with a canary mutant).
+Thorough tier (C35_THOROUGH=1): `mid` 3 = flush() after the write and the lookup again, 4 = commit() and the lookup
+again; `pre` 3 = a plain select of all rows, 4 = a locking lookup of another style first (4000 / 2000 combinations).
 Lookup styles: 0 `T.get(id=1)` / `T.get_for_update(id=1, nowait=, skip_locked=)`; 1 `T.get(lambda x: x.id == 1)` /
 `T.get_for_update(lambda ..., nowait=, skip_locked=)`; 2 `select(x for x in T if x.id == 1)[.for_update(nw, sk)][:]`;
 3 `T.select(lambda x: x.a > 0)[.for_update(nowait=, skip_locked=)].first()` (ORDER BY + LIMIT before the lock clause).
@@ -38,7 +44,9 @@ symbolic booleans: a real session over the fakes that goes through `db_session._
 derivation), `SessionCache.prepare_connection_for_query_execution`, `connect`, `Database._exec_sql`,
 `SQLiteProvider.set_transaction_mode/acquire_lock/commit` resp. `PGProvider.set_transaction_mode`, `commit()`; and
 the real SQL builders of PostgreSQL / SQLite / the base class on a `SELECT_FOR_UPDATE` AST with symbolic
-nowait/skip_locked.
+nowait/skip_locked.  (The kernels assert only the direction the property needs - "a transaction / the lock / autocommit
+off where required" - not that optimistic plain reads stay outside a transaction.)
+Canary mutations: checks/h_c35_canary.py (35 source rewrites of the real functions, all reported as counterexamples).
 
 Reference statement (written from the property / documentation, functions `_judge_*` below):
  SQLite (no row locks; an immediate transaction + the provider's process-wide lock stand in for them)
@@ -47,8 +55,9 @@ Reference statement (written from the property / documentation, functions `_judg
      connection (no commit/rollback in between), and the provider's transaction lock was taken before that BEGIN;
   L2 a locking lookup really goes to the database (at least one SELECT on the table after the BEGIN) even when the
      object is already in the session cache unlocked or the same query without for_update was cached;
-  L3 from that BEGIN until the connection's next commit()/rollback() the provider lock is held at every DB-API call,
-     it is free after the session, acquire/release are balanced and nothing was released twice;
+  L3 from that BEGIN until the connection's next commit()/rollback() the provider lock is held at every DB-API call
+     (including the commit()/rollback() call itself), it is free after the session, acquire/release are balanced and
+     nothing was released twice; a session whose body raises sends no commit and no UPDATE;
   L4 a session started in another thread while the transaction is open cannot begin its own write transaction: it
      would block on the provider lock (fakedb.ProbeLock raises WouldBlock instead of hanging) and has sent neither
      BEGIN nor UPDATE; when the first session holds no transaction the rival commits - and then L6 must protect it;
